@@ -681,6 +681,29 @@ def check_step(w, R, spec, st, got):
     elif not ob['ok']:
         if ob['code'] not in ALLOWED_ERRS:
             viol('overlay rebase failed with an undocumented code %r' % ob['code'])
+        if ob['code'] == 'E_UNEXPECTED' and pre['exists'] and pre['baseline']:
+            # only a missing merge base or a merge-file failure (binary input) explains it; overlapping
+            # edits must come back as E_OVERLAY_REBASE_CONFLICT
+            base0 = base_of(w, pre); man0 = pre['baseline']['manifest']; cause = False; conflicts = []
+            items = list(pre['files'].items()) if pre['kind'] == 'dir' else []
+            if pre['kind'] == 'patch':
+                for rp, p in pre['patches'].items():
+                    rt = patch_target(rp)
+                    if rt and valid_rel(rt) and rt in man0 and base0.get(rt) is not None:
+                        o = w.g.apply(p, rt, base0[rt])
+                        if o is not None: items.append((rt, o))
+                    elif rt in man0: cause = True
+            for r, o in items:
+                if r not in man0: continue
+                b = base0.get(r); u = real['up'].get(r)
+                if b is None: cause = True; continue
+                if u is None: continue
+                kind, exp, conf = expected_for(w, b, o, u)
+                if kind == 'merge_failed': cause = True
+                if conf: conflicts.append(r)
+            if not cause:
+                viol('overlay rebase answered E_UNEXPECTED although every merge base exists and git merge-file succeeded'
+                     + (' - conflicting files %s must be reported as E_OVERLAY_REBASE_CONFLICT' % conflicts if conflicts else ''))
         # an aborted rebase must still not lose an edit: every overlay file is either untouched or holds merge output
         base = base_of(w, pre) if pre['baseline'] else {}
         for r, o in pre['files'].items():
